@@ -11,6 +11,19 @@ clock at 2^64−1 as C05, see `C08_once_counterexample`):
 
     theorem C08_once (qs : List QueryMsg) :
         (runQ re cfg (Buf.start N c m) qs).2.1.Nodup
+
+Hypotheses that stay, and why:
+* `NoWrap` (at-most-once and the "only if" of the history-level iff theorems):
+  necessary — `C08_once_counterexample`, replayed on a real node on every run.
+* `0 < N < 2^64`: `QueryBuffer = 0` makes the real code divide by zero; `len` is an `int`.
+* the regex engine and the msgpack decoder are parameters (`re`, the `Filter` type);
+  every theorem is for every oracle, the differential uses Go's own engine and decoder.
+Everything else (deliver / ack / re-broadcast iff, routing for every name, a fresh
+query is first-in-window) carries no hypothesis.
+
+Regenerated ties: `Gen/BufHandler` (the body of `handleQuery`, translated and proved
+equal to the model), `Gen/BufLocks` (lock region), `Gen/InternalQueries` (stream and
+switch shape), `Gen/FilterLoop` (listing of `shouldProcessQuery`), `Gen/Lamport`.
 -/
 import SerfProofs.Lemmas.EventBuf
 import SerfProofs.Props.C05
@@ -18,6 +31,7 @@ import SerfModel.Model.QueryHandle
 import SerfModel.Gen.BufLocks
 import SerfModel.Gen.BufHandler
 import SerfModel.Gen.InternalQueries
+import SerfModel.Gen.FilterLoop
 import SerfProofs.Lemmas.BufHandlerIR
 namespace SerfProofs.C08
 open SerfModel SerfModel.Atomic SerfModel.EventBuf SerfModel.QueryHandle SerfProofs.EventBuf
@@ -412,5 +426,31 @@ example : appReceives exRe exCfg (Buf.init 4) exQ1 = true := by decide
 example : appReceives exRe exCfg (Buf.init 4) { exQ1 with name := "_serf_anything" } = false := by decide
 
 end routing
+
+/-- **Source tie (regenerated on every run): `shouldProcessQuery`.**  The canonical
+listing of the function (log lines stripped): an empty entry returns false; the
+switch is on the first byte; a node filter decodes `filter[1:]` and requires
+`slices.Contains(nodes, s.config.NodeName)`; a tag filter decodes `filter[1:]`, reads
+`tags[filt.Tag]` with the ONE-value map form (missing tag = empty string), returns
+false when the pattern does not compile or does not match; any other type returns
+false; after the loop `return true`.  This is the loop `QueryHandle.shouldProcess`
+models (`shouldProcess_eq_all`: = every filter `passes`). -/
+theorem C08_gen_filter_loop :
+    SerfModel.Gen.FilterLoop.loopVar = "filter"
+    ∧ SerfModel.Gen.FilterLoop.beforeSwitch = ["if len(filter) == 0 { return false }"]
+    ∧ SerfModel.Gen.FilterLoop.switchTag = "filterType(filter[0])"
+    ∧ SerfModel.Gen.FilterLoop.cases =
+      [("filterNodeType", ["var nodes filterNode",
+          "if err := decodeMessage(filter[1:], &nodes); err != nil { return false }",
+          "found := slices.Contains(nodes, s.config.NodeName)",
+          "if !found { return false }"]),
+       ("filterTagType", ["var filt filterTag",
+          "if err := decodeMessage(filter[1:], &filt); err != nil { return false }",
+          "tags := s.config.Tags",
+          "matched, err := regexp.MatchString(filt.Expr, tags[filt.Tag])",
+          "if err != nil { return false }",
+          "if !matched { return false }"])]
+    ∧ SerfModel.Gen.FilterLoop.defaultCase = ["return false"]
+    ∧ SerfModel.Gen.FilterLoop.afterLoop = "return true" := by decide
 
 end SerfProofs.C08
